@@ -78,6 +78,7 @@ def className : ErrClass → List Char
   | .enumName => str "enum-name"
   | .dupTop n => str "dup-top:" ++ n
   | .dupField n => str "dup-field:" ++ n
+  | .dupEnumField n => str "dup-enum-field:" ++ n
   | .oneofDict => str "oneof-dict"
   | .oneofRoot => str "oneof-root"
   | .rootEmpty => str "root-empty"
